@@ -22,8 +22,8 @@ type rdLeaf struct {
 	kind string // "load", "call", "param", "truncating", "opaque"
 	// phi edges in the root function through which the leaf reaches the root value (all of them are taken)
 	edges [][2]*ssa.BasicBlock
-	via        []string
-	note       string
+	via   []string
+	note  string
 }
 
 type rdWalker struct {
